@@ -76,7 +76,7 @@ class Interp(object):
         n = 0
         while True:
             n += 1
-            if n > 20000:
+            if n > 60000:
                 raise Unsupported('abstract path explosion in %s' % fn.q)
             self.assign = {}
             self.pos = 0
@@ -411,6 +411,132 @@ class GenericInterp(Interp):
         self.concrete = concrete or (lambda interp, n, env: NotImplemented)
         self.watch = watch or (lambda n: False)
 
+    loop_once = False
+    loop_fork = True   # False: every loop body is executed exactly once (no zero-iteration paths)
+
+    def _target(self, tgt, env):
+        """describe an assignment target: ('var', lid) | ('field', name) | ('elem', base name, index value) | None"""
+        tgt = unwrap(tgt)
+        if tgt is None:
+            return None
+        if tgt.k == 'ref' and tgt.decl.get('lid') is not None:
+            return ('var', tgt.decl['lid'], tgt.decl.get('name'))
+        if tgt.k == 'member' and (not tgt.c or tgt.c[0] is None or unwrap(tgt.c[0]).k == 'this'):
+            return ('field', tgt.decl.get('name'))
+        if (tgt.k == 'call' and tgt.get('op') == '[]' and len(tgt.c) == 2) or tgt.k == 'subscript':
+            base = self._target(tgt.c[0], env)
+            idx = _freeze(self.ev(tgt.c[1], env))
+            if base is not None:
+                return ('elem', base, idx)
+            return ('elem', ('expr', _freeze(self.ev(tgt.c[0], env))), idx)
+        if tgt.k == 'member' and tgt.c and tgt.c[0] is not None:
+            base = self._target(tgt.c[0], env)
+            if base is not None:
+                return ('elem', base, ('member', tgt.decl.get('name')))
+        if tgt.k == 'unop' and tgt.get('op') == '*':
+            return ('deref', _freeze(self.ev(tgt.c[0], env)))
+        return None
+
+    def _assign(self, n, env, op, tgtn, rhsn):
+        val = _freeze(self.ev(rhsn, env))
+        t = self._target(tgtn, env)
+        if t is None:
+            return NotImplemented
+        if t[0] == 'var':
+            if op == '=':
+                env[t[1]] = val
+            else:
+                env[t[1]] = Opaque(('bin', op[:-1], _freeze(env.get(t[1])), val))
+            if self.watch_params and t[1] in self.watch_params:
+                self.log.append(('assign', t[2], op, val, term(rhsn)))
+            return env[t[1]]
+        if t[0] == 'field':
+            if op == '=':
+                self.fields[t[1]] = val
+            else:
+                self.fields[t[1]] = Opaque(('bin', op[:-1], _freeze(self.fields.get(t[1])), val))
+            return self.fields[t[1]]
+        self.log.append(('store', t, op, val))
+        return val
+
+    def ex(self, s, env):
+        if s is not None and self.loop_once and s.k in ('for', 'while', 'rangefor', 'do'):
+            return self._loop_once(s, env)
+        return Interp.ex(self, s, env)
+
+    def _loop_once(self, s, env):
+        """abstract a loop by 'zero iterations' or 'one arbitrary iteration' (induction variables havocked)"""
+        k = s.k
+        key = ('loop', s.id)
+        if k == 'while':
+            # a padding loop (only container growth/shrink on opaque locals, nothing watched, no exit):
+            # its effect is invisible in the abstraction -> do not fork on it
+            body = s.c[1]
+            plain = True
+            for x in body.walk():
+                if x.k in ('throw', 'return', 'break', 'assign', 'if'):
+                    plain = False
+                    break
+                if x.k == 'call':
+                    if self.watch(x) or x.get('op') in ('=', '+=', '-='):
+                        plain = False
+                        break
+            if plain:
+                return
+        if k == 'for':
+            if s.c[0] is not None:
+                self.ex(s.c[0], env)
+                for v in s.c[0].walk():
+                    if v.k == 'var':
+                        env[v.get('lid')] = Opaque(('iter', v.get('name')))
+            if self.loop_fork and not self.decide(key):
+                return
+            if s.c[1] is not None:
+                # the iteration satisfies the loop condition
+                self.assume(s.c[1], env)
+            body = s.c[3]
+        elif k == 'while':
+            if self.loop_fork and not self.decide(key):
+                return
+            self.assume(s.c[0], env)
+            body = s.c[1]
+        elif k == 'do':
+            body = s.c[0]
+        else:
+            if s.c[1] is not None:
+                self.ex(s.c[1], env)
+            rng = None
+            if s.c[1] is not None:
+                for v in s.c[1].walk():
+                    if v.k == 'var' and v.c and v.c[0] is not None:
+                        rng = env.get(v.get('lid'))
+            if self.loop_fork and not self.decide(key):
+                return
+            if s.c[6] is not None:
+                for v in s.c[6].walk():
+                    if v.k == 'var':
+                        env[v.get('lid')] = Opaque(('elem', _freeze(rng)))
+            body = s.c[7]
+        try:
+            self.ex(body, env)
+        except _Break:
+            pass
+        except _Continue:
+            pass
+
+    def assume(self, cond, env):
+        """evaluate a condition known to hold: its free atoms are fixed to the satisfying side where the
+        condition is a conjunction; otherwise it is only evaluated (keys get decided, the path may be infeasible)"""
+        try:
+            v = self.ev(cond, env)
+            if isinstance(v, bool) and not v:
+                self.infeasible = True
+        except Unsupported:
+            pass
+
+    watch_params = None
+    log_terms = False
+
     def decide_neg(self, key, neg):
         v = self.decide(key)
         return (not v) if neg else v
@@ -442,6 +568,16 @@ class GenericInterp(Interp):
         if r is not NotImplemented:
             return r
         k = n.k
+        if k == 'assign':
+            r2 = self._assign(n, env, n.get('op'), n.c[0], n.c[1])
+            if r2 is not NotImplemented:
+                return r2
+            raise Unsupported('assignment target at %s (%s)' % (n.loc(), n.src()))
+        if k == 'unop' and n.get('op') in ('++', '--'):
+            t = self._target(n.c[0], env)
+            if t is not None and t[0] == 'var' and not isinstance(env.get(t[1]), (int,)) :
+                env[t[1]] = Opaque(('bin', n.get('op')[0], _freeze(env.get(t[1])), 1))
+                return env[t[1]]
         if k == 'call':
             cal = n.callee
             if cal is None:
@@ -450,6 +586,15 @@ class GenericInterp(Interp):
             if tgt is not None and self.inline(tgt):
                 return NotImplemented
             op = n.get('op')
+            if op in ('=', '+=', '-=', '*=', '/=') and len(n.c) == 2:
+                r2 = self._assign(n, env, op, n.c[0], n.c[1])
+                if r2 is not NotImplemented:
+                    return r2
+            if op in ('++', '--') and n.c:
+                t = self._target(n.c[0], env)
+                if t is not None and t[0] == 'var':
+                    env[t[1]] = Opaque(('bin', op[0], _freeze(env.get(t[1])), 1))
+                    return env[t[1]]
             vals = tuple(_freeze(self.ev(x, env)) for x in n.c if x is not None)
             if op in ('<', '>', '<=', '>=', '==', '!=') and len(vals) == 2:
                 key, neg = _canon_cmp(op, vals[0], vals[1])
@@ -460,14 +605,10 @@ class GenericInterp(Interp):
                 return Opaque(('deref', vals[0]))
             if op in ('+', '-') and len(vals) == 2:
                 return Opaque(('bin', op, vals[0], vals[1]))
-            if op == '=' and len(n.c) == 2:
-                tgtn = unwrap(n.c[0])
-                if tgtn.k == 'ref' and tgtn.decl.get('lid') is not None:
-                    env[tgtn.decl['lid']] = vals[1]
-                    return vals[1]
-                if tgtn.k == 'member' and (not tgtn.c or tgtn.c[0] is None or unwrap(tgtn.c[0]).k == 'this'):
-                    self.fields[tgtn.decl.get('name')] = vals[1]
-                    return vals[1]
+            if op in ('=', '+=', '-=', '*=', '/=') and len(n.c) == 2:
+                r2 = self._assign(n, env, op, n.c[0], n.c[1])
+                if r2 is not NotImplemented:
+                    return r2
             name = cal.get('q') if not n.get('member') else cal.get('name')
             # out-parameters: a local passed by non-const reference is (re)defined by the call
             from .sem import split_sig
@@ -486,6 +627,8 @@ class GenericInterp(Interp):
                         env[an.decl['lid']] = Opaque(('out', name, i) + ins)
             if self.watch(n):
                 self.log.append((cal.get('name'),) + vals)
+                if self.log_terms:
+                    self.log.append(('terms', cal.get('name')) + tuple(term(x) for x in n.c if x is not None))
             if cal.get('kind') == 'conv' and cal.get('ret') == 'bool':
                 return self.decide(('truthy', vals[0]))
             v = Opaque(('call', name) + vals)
@@ -498,6 +641,8 @@ class GenericInterp(Interp):
             vals = tuple(_freeze(self.ev(x, env)) for x in args)
             if self.watch(n):
                 self.log.append(('new ' + (cal.get('cls') or '?'),) + vals)
+                if self.log_terms:
+                    self.log.append(('terms', 'new ' + (cal.get('cls') or '?')) + tuple(term(x) for x in args))
             cls = cal.get('cls') or ''
             if len(vals) == 1 and (cls.startswith(('std::basic_string', 'std::shared_ptr', 'std::function', 'std::unique_ptr', 'boost::optional')) or is_copy_construct(n)):
                 return vals[0]
